@@ -51,13 +51,14 @@ DoRegRet == \E g \in c.regs : g.pc \in {"ok", "err"} /\ c' = RegRet(c, g) /\ UNC
 
 \* a request reaches a tower that is up (the sender kinds use different sequence numbers: 1 handler, 2 registertower,
 \* 3 retrier / appointment, 4 retrier / renewal)
-DoSend ==
-    \E t \in Towers :
-       /\ c.up[t] /\ c.alive /\ UNCHANGED b
-       /\ \/ \E n \in c.nots : NotifyCanSend(c, n, t) /\ c' = NotifySend(c, n, t, 1)
-          \/ \E g \in c.regs : g.t = t /\ RegCanSend(c, g) /\ c' = RegSend(c, g, 2)
-          \/ \E l \in Locators : RunCanSendAdd(c, t, l, 0) /\ c' = RunSendAdd(c, t, l, 3)
-          \/ RunCanSendReg(c, t, 0) /\ c' = RunSendReg(c, t, 4)
+DoSendAt(t) ==
+    /\ c.up[t] /\ c.alive /\ UNCHANGED b
+    /\ \/ \E n \in c.nots : NotifyCanSend(c, n, t) /\ c' = NotifySend(c, n, t, 1)
+       \/ \E g \in c.regs : g.t = t /\ RegCanSend(c, g) /\ c' = RegSend(c, g, 2)
+       \/ \E l \in Locators : RunCanSendAdd(c, t, l, 0) /\ c' = RunSendAdd(c, t, l, 3)
+       \/ RunCanSendReg(c, t, 0) /\ c' = RunSendReg(c, t, 4)
+
+DoSend == \E t \in Towers : DoSendAt(t)
 
 \* what a tower may answer
 SlotsNow(t) == IF t \in DbKnown(c.st) THEN DbTower(c.st, t).slots ELSE 0
@@ -95,7 +96,7 @@ DoKill == c.alive /\ b.kill < MaxKill /\ c' = Kill(c) /\ b' = [b EXCEPT !.kill =
 DoRestart == ~c.alive /\ c' = Restart(c) /\ UNCHANGED b
 
 \* ---- hidden steps --------------------------------------------------------
-DoHidden == c' \in Hidden(c, 0) /\ UNCHANGED b
+DoHidden == c' \in Hidden(c, Tm0) /\ UNCHANGED b
 
 Next == DoNotifyCall \/ DoNotifyRet \/ DoRegCall \/ DoRegRet \/ DoSend \/ DoReply \/ DoRetry \/ DoAbandon
         \/ DoDown \/ DoUp \/ DoKill \/ DoRestart \/ DoHidden
